@@ -143,9 +143,10 @@ func init() {
 	Properties["C13"] = func(env *Env) []*Harness { return []*Harness{HExported(), HVars()} }
 	Properties["C20"] = func(env *Env) []*Harness { return []*Harness{HPairName(), HMock(), HRun()} }
 	Properties["C17"] = func(env *Env) []*Harness { return []*Harness{HRun(), HMain(), HMock()} }
-	for _, p := range []string{"C03", "C04", "C07", "C08"} {
+	for _, p := range []string{"C03", "C04", "C08"} {
 		Properties[p] = func(env *Env) []*Harness { return []*Harness{HGenSeq()} }
 	}
+	Properties["C07"] = func(env *Env) []*Harness { return []*Harness{HGenSeq(), HVars()} }
 	for _, p := range []string{"C05", "C06"} {
 		Properties[p] = func(env *Env) []*Harness { return []*Harness{HGenSeq(), HSched()} }
 	}
